@@ -97,7 +97,7 @@ package proto
 //@ interface Preparable.Prepare(c) (err)
 //@ -- a result sink: the block's row/column counts it is handed were validated against the caps
 //@ interface Result.DecodeResult(s, r, version, b) (err)
-//@   requires r != nil && 0 <= b.Rows && b.Rows <= maxRowsInBLock && 0 <= b.Columns
+//@   requires r != nil && 0 <= b.Rows && b.Rows <= maxRowsInBLock && 0 <= b.Columns && b.Columns <= maxColumnsInBlock
 //@   modifies all(s), r.pos, r.failed, r.b.Buf
 //@   ensures err == nil ==> r.failed == old(r.failed)
 //@   ensures old(r.pos) <= r.pos && r.pos <= r.end
@@ -110,6 +110,11 @@ package proto
 //@   ensures err == nil ==> r.failed == old(r.failed)
 //@   ensures old(r.pos) <= r.pos && r.pos <= r.end
 //@   ensures err == nil ==> r.pos == old(r.pos) + c.statelen
+//@ interface Stateful.DecodeState(c, r) (err)
+//@   requires r != nil
+//@   modifies r.pos, r.failed, r.b.Buf
+//@   ensures err == nil ==> r.failed == old(r.failed)
+//@   ensures old(r.pos) <= r.pos && r.pos <= r.end
 //@ interface StateEncoder.EncodeState(c, b)
 //@   requires b != nil
 //@   modifies b.Buf
@@ -805,3 +810,48 @@ package proto
 //@ loop 0 (rangeindex)
 //@   modifies b.Buf
 //@   invariant -1 <= rangeindex && rangeindex < len(c) && len(b.Buf) >= old(len(b.Buf)) && forall k in 0..old(len(b.Buf)) :: b.Buf[k] == old(b.Buf[k])
+
+// ---------------------------------------------------------------------------
+// C06: the remaining decoders - thin safety contracts (every index/slice/nil/alloc/overflow
+// obligation of the body under the weakest precondition on the input bytes).
+//@ contract (c *ColJSONStr) DecodeState(r) (err) props(C06,C07,C08)
+//@   requires c != nil && r != nil
+//@   modifies r.pos, r.failed, r.b.Buf
+//@   ensures err == nil ==> r.failed == old(r.failed)
+//@ contract (p *Parameter) Decode(r) (err) props(C06,C07,C08)
+//@   requires p != nil && r != nil
+//@   modifies p.Key, p.Value, r.pos, r.failed, r.b.Buf
+//@   ensures err == nil ==> r.failed == old(r.failed)
+//@ contract (r *Reader) Decode(v) (err) props(C06,C07,C08)
+//@   requires r != nil && v != nil
+//@   modifies all(v), all(r)
+//@ -- a tuple is a list of element columns; a nil element is a construction error of the caller
+//@ contract (c ColTuple) DecodeColumn(r, rows) (err) props(C06,C07,C08)
+//@   requires r != nil && 0 <= rows && rows <= maxRowsInBLock && each(c, e, e != nil && e.nrows == 0)
+//@   modifies pointees(c), r.pos, r.failed, r.b.Buf
+//@   ensures err == nil ==> r.failed == old(r.failed)
+//@ loop 0 (rangeindex)
+//@   modifies pointees(c), r.pos, r.failed, r.b.Buf
+//@   invariant r.failed == old(r.failed)
+//@ contract (c ColTuple) DecodeState(r) (err) props(C06,C07,C08)
+//@   requires r != nil
+//@   modifies r.pos, r.failed, r.b.Buf
+//@   ensures err == nil ==> r.failed == old(r.failed)
+//@ loop 0 (rangeindex)
+//@   modifies r.pos, r.failed, r.b.Buf
+//@   invariant r.failed == old(r.failed)
+//@ contract (c ResultColumn) DecodeResult(r, version, b) (err) props(C06,C07,C08)
+//@   requires r != nil && 0 <= b.Rows && b.Rows <= maxRowsInBLock && 0 <= b.Columns
+//@   modifies all(c), r.pos, r.failed, r.b.Buf
+//@   ensures err == nil ==> r.failed == old(r.failed)
+//@ contract (s autoResults) DecodeResult(r, version, b) (err) props(C06,C07,C08)
+//@   requires r != nil && s.results != nil && 0 <= b.Rows && b.Rows <= maxRowsInBLock && 0 <= b.Columns && b.Columns <= maxColumnsInBlock
+//@   modifies all(s), all(r)
+//@ -- automatic result binding: one inferred column per block column
+//@ contract (s *Results) decodeAuto(r, version, b) (err) props(C06,C07,C08)
+//@   requires s != nil && r != nil && 0 <= b.Rows && b.Rows <= maxRowsInBLock && 0 <= b.Columns && b.Columns <= maxColumnsInBlock
+//@   modifies all(s), r.pos, r.failed, r.b.Buf
+//@   ensures err == nil ==> r.failed == old(r.failed)
+//@ loop 0 (i)
+//@   modifies all(s), r.pos, r.failed, r.b.Buf
+//@   invariant 0 <= i && r.failed == old(r.failed)
